@@ -143,7 +143,7 @@ def run(ctx):
     # 2. conformance
     binary = ic.build(ctx)
     nshards = ctx.pick(4, 8)
-    shards = ic.run_shards(ctx, binary, nshards, n_per_shard=ctx.pick(90, 1300), depth=ctx.pick(2, 3),
+    shards = ic.run_shards(ctx, binary, nshards, n_per_shard=ctx.pick(110, 1300), depth=ctx.pick(2, 3),
                            exhaust_depth=ctx.pick(1, 2))
     traces = [s[0] for s in shards]
     opsfiles = [s[1] for s in shards]
@@ -151,7 +151,7 @@ def run(ctx):
     ctx.log("driver: %d cases, %d changes in %d shards" % (n_cases, sum(s[3] for s in shards), nshards))
 
     # 2a. T->I: replay TLC's counterexamples for the named deviations on the real code
-    reproduced = []
+    reproduced, unreproduced = [], []
     if expected:
         d = ctx.subdir("cex")
         scf = os.path.join(d, "scenarios.json")
@@ -165,14 +165,17 @@ def run(ctx):
         for (cfg, inv, sc), o in zip(expected, got):
             clauses, _ = ic.check_op(o)
             want = "stale-profile" if inv == "StrictFailureProfiles" else "not-restored"
-            if want not in clauses:
-                raise InfraError("TLC counterexample of %s (%s) did not reproduce on the real code (clauses %s): the model "
-                                 "is not faithful there" % (cfg, ic.scenario_str(sc), clauses))
-            reproduced.append({"cfg": cfg, "invariant": inv, "scenario": ic.scenario_str(sc), "real_clauses": clauses})
+            rec = {"cfg": cfg, "invariant": inv, "scenario": ic.scenario_str(sc), "real_clauses": clauses}
+            (reproduced if want in clauses else unreproduced).append(rec)
 
     # 2b. I->T: every recorded step is a step of the spec, invariants hold on the real projections
+    cex_trace = traces[-1] if expected else None
     traces = _merge(ctx, traces, ctx.pick(2, 8))
     violations, lines, negctl = _validate(ctx, traces)
+    if unreproduced and not violations:
+        # the real code did not show the deviation TLC predicts and yet every real step was accepted by the
+        # trace spec: the two oracles contradict each other
+        raise InfraError("TLC counterexample(s) did not reproduce on the real code although the trace was accepted: %s" % unreproduced)
 
     # 2c. the statement itself on the real projections
     direct, stats, samples = ic.evaluate_ops(opsfiles)
@@ -191,6 +194,7 @@ def run(ctx):
                           "MaxOps": ctx.pick("1 (entry) / 1 (entry+Setup faults)", "3 (entry) / 2 (entry+Setup faults)")},
         "action_coverage": tlc.coverage_summary(main),
         "expected_counterexamples_reproduced_on_real_code": reproduced,
+        "expected_counterexamples_not_reproduced": unreproduced,
         "traces_validated_against_impl": n_cases + len(expected),
         "trace_events_validated": lines,
         "real_changes_executed": stats["changes"],
